@@ -244,6 +244,9 @@ class Sim:
 
     def clock(self, name="clk", **inputs):
         """apply inputs (while the clock is low), then a full clock period: rise, settle, fall, settle."""
+        if self.ports[name.lower()].cur != V.L0:
+            inputs = dict(inputs)
+            inputs[name] = 0  # a rising edge needs a defined '0' first (an 'U' -> '1' change is not one)
         if inputs:
             self.poke(**inputs)
         self.set(name, 1)
